@@ -50,6 +50,9 @@ def write_templates(W, lens, sym_int):
         if n:
             T('stackbytes-%d' % n, "empty @is_you(int x) { byte[] a = [%s]; int keep = x; write(a); writeln(a); sleep(keep); }\n" % elems)
             T('vla-bytes-%d' % n, "empty @is_you(int x) { byte a[%d]; for (int i = 0; i < %d; i += 1) { a[i] = (x + i) is byte; } write(a); }\n" % (n, n))
+    # constants containing the bytes that have their own spelling in the assembly (write emits exactly that byte)
+    T('const-escapes', "const byte[] cb = ['\\0', '\\t', '\\n', '\\r', '\\'', '\"', '\\\\', '\\x7f', '\\xff', ' '];\nempty @is_you(int x) { write('\\r'); write('\\n'); write('\\t'); write('\\0'); write('\\''); write('\"'); write('\\\\'); write('\\x0d'); "
+      "write(\"a\\rb\\nc\\td\\0e'f\\\"g\\\\h\\x0d\\x7f\\xff\"); write(cb); writeln(\"\\r\"); writeln('\\r'); byte[] mb = ['\\r', '\\n']; write(mb); write(\"\\r\\n\" is byte[]); }\n")
     T('global-bytes', "byte[] gb = [1, 2, 3];\nconst byte[] cb = ['x', 'y'];\nempty @is_you(byte v) { gb[1] = v; write(gb); write(cb); writeln(\"lit\"); write(\"\"); }\n")
     T('string-caller', "empty @is_you(string s, int y) { int a = y; byte[] bs = [1, 2, 3]; write(s); sleep(a); write(bs); write(\"const\"); sleep(a); }\n", s=[3])
     return out
